@@ -174,6 +174,41 @@ func cmdCheck(args []string) int {
 	extra := map[string]interface{}{}
 	if *tier == "thorough" && !*noEvidence {
 		extra["selftest"] = runSelfTest(*repo, *verif, *prop)
+		// cross-check: the same rules over the CHA-only call graph (coarser: more
+		// callees per interface call). A verdict that differs points at a rule
+		// that leans on call-graph precision; reported, never part of the verdict.
+		type diff struct {
+			Config, Key, VTA, CHA string
+		}
+		var diffs []diff
+		compared := 0
+		for _, r := range results {
+			if r.err != nil || r.prog == nil {
+				continue
+			}
+			cp := *r.prog
+			cp.CG = r.prog.CHA
+			cp.summaries = map[string]interface{}{}
+			vta := map[string]Status{}
+			for _, o := range r.obs {
+				vta[o.Key] = o.Status
+			}
+			for _, rule := range rules {
+				if rule.VectorsOnly && !r.cfg.Vectors {
+					continue
+				}
+				saved := rule.Floor
+				rule.Floor = nil
+				for _, o := range runRule(rule, &cp, *prop) {
+					compared++
+					if st, ok := vta[o.Key]; !ok || st != o.Status {
+						diffs = append(diffs, diff{r.cfg.Name, o.Key, string(vta[o.Key]), string(o.Status)})
+					}
+				}
+				rule.Floor = saved
+			}
+		}
+		extra["cha_vs_vta"] = map[string]interface{}{"obligations_compared": compared, "differing": diffs}
 	}
 
 	// verdicts
